@@ -126,17 +126,20 @@ package digest
 //@ func (Function).NewDigestFromProto
 //@   trusted
 //@   modifies nothing
+// sbAdds(m): number of Add calls on the set builder whose map is m.
+//@ ghost sbAdds(ref) int
 //@ func NewSetBuilder
 //@   trusted
-//@   modifies nothing
-//@   ensures fresh(result.digests)
+//@   modifies sbAdds
+//@   ensures fresh(result.digests) && sbAdds(result.digests) == 0
 //@ func (SetBuilder).Length
 //@   trusted
 //@   modifies nothing
 //@   ensures result >= 0
 //@ func (SetBuilder).Add
 //@   trusted
-//@   modifies nothing
+//@   modifies sbAdds(sb.digests)
+//@   ensures sbAdds(sb.digests) == old(sbAdds(sb.digests)) + 1 && result.digests == sb.digests
 //@ func (SetBuilder).Build
 //@   trusted
 //@   modifies nothing
@@ -145,3 +148,9 @@ package digest
 //@ func (Digest).GetDigestFunction
 //@   trusted
 //@   modifies nothing
+
+// A matcher decides per instance name and touches nothing (assumed).
+//@ ufunc imMatch(ref, str) bool
+//@ iface InstanceNameMatcher.call
+//@   modifies nothing
+//@   ensures result <==> imMatch(self, i.value)
